@@ -271,15 +271,17 @@ def full_table_scenario(args):
 
 def unnamed_scenario(args):
     """the editor starts without a file name; text is appended and then written somewhere (a file, part of it, or a pipe).
-    Quitting or leaving the buffer may only succeed when some file on disk holds the whole text (printed with 1,$p, which
-    unlike :w cannot give the buffer a name)."""
+    Quitting or leaving the buffer may only succeed when the text is safe: for a buffer that has got a name by being written,
+    when that file holds exactly the text; for a buffer still without a name, when it is empty or some file holds its text
+    (the text is observed with 1,$p, which unlike :w cannot give the buffer a name)."""
     vi, idx = args
     R = rng('c02', 'unnamed', idx)
     text = b''.join(b'line %d %c\n' % (j, 97 + R.randint(0, 25)) for j in range(R.randint(1, 5)))
-    acts = [R.choice([b'w !cat', b'w !true', b'1,1w !cat', b'w! !cat', b'w nf1', b'1,1w nf2', b'w! nf1', b'1,$w nf3', b'w', b'f', b'1s/^/z/', b'u', b'1,1w! nf1', b'w nf1\n1s/$/ more/'])
-            for _ in range(R.randint(1, 3))]
-    quit_cmd = R.choice([b'q', b'q', b'x', b'wq', b'e f1', b'e nf1'])
-    script = b'a\n' + text + b'.\n' + b''.join(a + b'\n' for a in acts) + b'ec ' + S(0) + b'\n1,$p\nec ' + S(1) + b'\n' + quit_cmd + b'\nec ' + S(2) + b'\n1,$p\nec ' + S(3) + b'\n'
+    acts = [R.choice([b'w !cat', b'w !true', b'1,1w !cat', b'w! !cat', b'w nf1', b'1,1w nf2', b'w! nf1', b'1,$w nf3', b'w', b'f', b'1s/^/z/', b'u', b'u', b'1,1w! nf1', b'w nf1\n1s/$/ more/'])
+            for _ in range(R.randint(1, 4))]
+    leave = R.random() < 0.3        # the buffer is left behind (forced) before the quit attempt: it still counts
+    quit_cmd = R.choice([b'q', b'q', b'x', b'wq', b'xa', b'xa'] if leave else [b'q', b'q', b'x', b'wq', b'e f1', b'e nf1'])
+    script = b'a\n' + text + b'.\n' + b''.join(a + b'\n' for a in acts) + b'ec ' + S(4) + b'\nb\nec ' + S(5) + b'\nec ' + S(0) + b'\n1,$p\nec ' + S(1) + b'\n' + (b'e! f1\n' if leave else b'') + quit_cmd + b'\nec ' + S(2) + b'\n1,$p\nec ' + S(3) + b'\n'
     r, d = common.run_ex(vi, script, files={'f1': b'other file\n'}, timeout=30, args=[])
     disk = {x: common.readf(d, x) for x in os.listdir(d) if x != 'f1' and not x.startswith('.') and os.path.isfile(os.path.join(d, x))}
     common.rmcase(d)
@@ -287,16 +289,24 @@ def unnamed_scenario(args):
     cur = seg(r.out, 0, 1)
     if r.timed_out or common.san_report(r) or cur is None:
         return None, wit
-    held = cur == b'' or any(v == cur for v in disk.values())      # an empty unnamed buffer has nothing to lose
+    lst = re.sub(rb'\x1b\[[0-9;]*[A-Za-z]|\r', b'', seg(r.out, 4, 5) or b'')
+    m = re.search(rb'\d+ % ([^ ]*) [* ]', lst)
+    if not m:
+        return None, wit
+    adopted = m.group(1).decode() or None          # (the first successful write to a file gives the buffer that file's name)
+    if adopted:
+        held = disk.get(adopted) == cur
+    else:
+        held = cur == b'' or any(v == cur for v in disk.values())
     alive = S(2) in r.out
     after = seg(r.out, 2, 3)
-    what = 'unnamed buffer, %s then :%s' % ([a.decode() for a in acts], quit_cmd.decode())
+    what = 'unnamed buffer, %s%s then :%s' % ([a.decode() for a in acts], ', :e! f1' if leave else '', quit_cmd.decode())
     if held:
         return 'ok-trivial', wit
     if not alive:
-        return ('quit-discards', '%s: the editor exited although no file holds the text %r (files: %s)' % (what, common.show(cur, 60), sorted(disk))), wit
-    if after is not None and after != cur:
-        return ('switch-from-dirty', '%s: the buffer was left although no file holds its text %r' % (what, common.show(cur, 60))), wit
+        return ('quit-discards', '%s: the editor exited although %s (files: %s)' % (what, 'its file %s does not hold the text %r' % (adopted, common.show(cur, 60)) if adopted else 'no file holds the text %r' % common.show(cur, 60), sorted(disk))), wit
+    if not leave and after is not None and after != cur:
+        return ('switch-from-dirty', '%s: the buffer was left although its text %r is not safe' % (what, common.show(cur, 60))), wit
     return 'ok', wit
 
 
